@@ -102,7 +102,7 @@ func (c *Collection) DeleteWithMeta(_ context.Context, key string, oldCas CAS, n
 // storeDocument performs a write to the underlying sqlite database of a document from a given event.
 func (c *Collection) storeDocument(txn *sql.Tx, e *event) error {
 	tombstone := 0
-	if e.isDeletion {
+	if e.isDeletion || e.value == nil {
 		tombstone = 1
 	}
 	_, err := txn.Exec(`INSERT INTO documents(collection,key,value,isJSON,cas,exp,xattrs,tombstone,revSeqNo)
@@ -463,7 +463,7 @@ func (c *Collection) DeleteWithXattrs(ctx context.Context, key string, xattrKeys
 			return nil, err
 		}
 		e.revSeqNo++
-		_, err = txn.Exec(`UPDATE documents SET value=null, xattrs=?1, cas=?2, revSeqNo=?3 WHERE collection=?4 AND key=?5`, e.xattrs, newCas, e.revSeqNo, c.id, key)
+		_, err = txn.Exec(`UPDATE documents SET value=null, isJSON=0, tombstone=1, xattrs=?1, cas=?2, revSeqNo=?3 WHERE collection=?4 AND key=?5`, e.xattrs, newCas, e.revSeqNo, c.id, key)
 		return e, err
 	})
 	return err
@@ -632,6 +632,11 @@ func (c *Collection) writeWithXattrs(
 			}
 		}
 		e.xattrs, _ = json.Marshal(xattrs)
+		if e.value == nil {
+			// a document without a body is a tombstone, whichever path wrote it
+			e.isDeletion = true
+			e.isJSON = false
+		}
 
 		if err = checkDocSize(len(e.value) + len(e.xattrs)); err != nil {
 			return nil, err
